@@ -60,6 +60,11 @@ type Work struct {
 	// Requeue (tasks): the first Requeue runs return after 300 us and queue the task again from inside; Mode, Panic
 	// etc. apply to the run after them (the launch step waits for that run to begin).
 	Requeue int `json:"requeue,omitempty"`
+	// MaxDelayMS (tasks): the task gets this maximum delay. QueueInside: the first run after the Requeue ones queues the
+	// task again from inside before it holds (and panics); with a hold longer than the maximum delay the new submission
+	// is overdue while the execution still runs.
+	MaxDelayMS  int  `json:"max_delay_ms,omitempty"`
+	QueueInside bool `json:"queue_inside,omitempty"`
 	// NoWait: the launch step does not wait for the item to begin (a task that cannot get a time slot while the
 	// microtask limit is used up).
 	NoWait bool `json:"no_wait,omitempty"`
